@@ -176,6 +176,46 @@ theorem nttTransform_definedAt (hroot : RootOK root) (L : Nat) (hL : L ≤ 31) (
 
 end Generic
 
+/-! ### operands over different fields, arbitrary transforms that correspond along the embeddings -/
+section MixedT
+variable {K K₁ K₂ : Type} [Field K] [Field K₁] [Field K₂]
+variable (root : Nat → Option K) (root₁ : Nat → Option K₁) (root₂ : Nat → Option K₂)
+
+/-- `fast_multiply<FF2>` with each operand transformed over its own field is the same-field `fast_multiply` on the
+    embedded operands, whenever the transforms correspond along the embeddings (generalises `fastMultiplyG_eq` from
+    `specTransform` to any transforms) -/
+theorem fastMultiplyG_eq_of_hom (φ₁ : K₁ →+* K) (φ₂ : K₂ →+* K) (T1 : Transform K₁) (T2 : Transform K₂) (T : Transform K)
+    (h1 : ∀ xs, (T1.ntt xs).map (List.map φ₁) = T.ntt (xs.map φ₁))
+    (h2 : ∀ xs, (T2.ntt xs).map (List.map φ₂) = T.ntt (xs.map φ₂)) (a : List K₁) (b : List K₂) :
+    fastMultiplyG (FieldOps.ofField K₁ root₁) (FieldOps.ofField K₂ root₂) (fun x y => φ₁ x * φ₂ y) T1 T2 T a b
+      = fastMultiply (FieldOps.ofField K root) T (a.map φ₁) (b.map φ₂) := by
+  unfold fastMultiply fastMultiplyG
+  simp only [FieldOps.ofField_zero, degree_map root root₁ φ₁ a, degree_map root root₂ φ₂ b, resize_map, ← h1, ← h2]
+  split
+  · rfl
+  · cases T1.ntt (resize a _ 0) with
+    | none => rfl
+    | some l =>
+      cases T2.ntt (resize b _ 0) with
+      | none => rfl
+      | some r =>
+        simp only [Option.map_some, Option.bind_eq_bind, Option.bind_some, FieldOps.ofField_mul_fn, List.zipWith_map]
+
+theorem multiplyG_eq_of_hom (φ₁ : K₁ →+* K) (φ₂ : K₂ →+* K) (T1 : Transform K₁) (T2 : Transform K₂) (T : Transform K)
+    (h1 : ∀ xs, (T1.ntt xs).map (List.map φ₁) = T.ntt (xs.map φ₁))
+    (h2 : ∀ xs, (T2.ntt xs).map (List.map φ₂) = T.ntt (xs.map φ₂)) (threshold : Int) (a : List K₁) (b : List K₂) :
+    multiplyG (FieldOps.ofField K₁ root₁) (FieldOps.ofField K₂ root₂) (FieldOps.ofField K root)
+        (fun x y => φ₁ x * φ₂ y) threshold T1 T2 T a b
+      = multiply (FieldOps.ofField K root) threshold T (a.map φ₁) (b.map φ₂) := by
+  have hf := fastMultiplyG_eq_of_hom root root₁ root₂ φ₁ φ₂ T1 T2 T h1 h2 a b
+  have hn := naiveMultiplyG_eq root φ₁ φ₂ root₁ root₂ a b
+  unfold multiply multiplyG
+  unfold fastMultiply at hf
+  unfold naiveMultiply at hn
+  rw [degree_map root root₁ φ₁ a, degree_map root root₂ φ₂ b, hf, hn]
+
+end MixedT
+
 /-! ### the base field: `ZMod P`, the translated table `PRIMITIVE_ROOTS` -/
 section Base
 
